@@ -30,7 +30,7 @@ FIELDS = {
     'duration': [5, 0, 1, BIG],
     'frames': ['one', 'none', 'fifty', 'all_optional', 'no_class'],
     'table': ['one', 'empty', 'children', 'truncated', 'two_thousand', 'modifiers'],
-    'watches': ['none', 'good', 'error', 'four_sources', 'good_and_error'],
+    'watches': ['none', 'good', 'error', 'four_sources', 'good_and_error', 'empty_error_text'],
     'attributes': ['ctx', 'empty', 'types', 'sequence', 'bytes'],
     'resource': ['svc', 'empty', 'types', 'sequence'],
     'log': ['unset', 'empty', 'text'],
@@ -131,6 +131,10 @@ def build(combo):
         snap.add_watch_result(WatchResult('WATCH', T('watch_expr', 'y'), None, T('watch_error', 'boom')))
     if at in ('watch_expr', 'watch_error') and d['watches'] in ('none', 'four_sources'):
         snap.add_watch_result(WatchResult('WATCH', T('watch_expr', 'z'), None, T('watch_error', 'bad')))
+    if d['watches'] == 'empty_error_text':
+        # str(e) is '' for an exception without arguments (StopIteration(), KeyError() ...): still an error result
+        snap.add_watch_result(WatchResult('WATCH', 'next(iter([]))', None, ''))
+        snap.add_watch_result(WatchResult('LOG', 'ok', VariableId('1', 'ok')) if table else WatchResult('LOG', 'ok', None, 'e'))
     if d['watches'] == 'four_sources':
         for src in ('WATCH', 'LOG', 'METRIC', 'CAPTURE'):
             snap.add_watch_result(WatchResult(src, 'e_' + src, VariableId('1', 'e') if table else None, None if table else 'err'))
